@@ -130,7 +130,7 @@ func genErrFunc(p *pkgInfo, goName, coqName string) (nn string, nilval string, p
 	}
 	param := fn.Type.Params.List[0].Names[0].Name
 	d := &errDialect{param: param}
-	c := &compiler{fset: p.fset, d: d, types: map[string]string{param: "err"}}
+	c := &compiler{fset: p.fset, d: d, types: map[string]string{param: "err"}, funcs: p.funcs, pkgConsts: p.consts, pkgVars: p.vars}
 	// the first statement must be the nil check: if err == nil { return <bool> }
 	body := fn.Body.List
 	first, ok := body[0].(*ast.IfStmt)
